@@ -73,6 +73,8 @@ CORPUS = [
         'self.saved_tensors = [p.tensor.detach().clone() for p in self.parameters]', benign=True),
     Mut('c15-benign-compare-flipped', MC, 'MCMC.run', 'accepted = (acceptance_prob > torch.rand(1)).item()',
         'accepted = (torch.rand(1) < acceptance_prob).item()', benign=True),
+    Mut('c15-nan-density-not-rejected', 'torchtree/inference/mcmc/mcmc.py', '', "                if torch.isnan(log_joint_proposed) or torch.isinf(log_joint_proposed):", "                if torch.isinf(log_joint_proposed):", expect=[('C15.L', 'MCMC.run::nan-density-guard')], mode='text'),
+    Mut('c15-benign-not-isfinite-guard', 'torchtree/inference/mcmc/mcmc.py', '', "                if torch.isnan(log_joint_proposed) or torch.isinf(log_joint_proposed):", "                if not torch.isfinite(log_joint_proposed):", benign=True, mode='text'),
 ]
 for m in CORPUS:
     if m.id == 'c15-joint-before-step':
